@@ -67,7 +67,7 @@ def main():
         else:
             seeds.append(args[i]); i += 1
     if not seeds:
-        seeds = sorted(os.listdir(os.path.join(VERIF, SEED_DIR)))
+        seeds = sorted(x for x in os.listdir(os.path.join(VERIF, SEED_DIR)) if os.path.isdir(os.path.join(VERIF, SEED_DIR, x)))
     caught = 0
     with ThreadPoolExecutor(max_workers=14) as ex:
         results = list(ex.map(lambda s: run_seed(s, props, tier), seeds))
@@ -84,7 +84,9 @@ def main():
             caught += 1
         mark = "*" if own in fired else " "
         print(f"{seed}: {status}{mark} fired={','.join(fired) or '-'}" + (f" analysis-error={','.join(broken)}" if broken else ""))
-        summary[seed] = {"fired": fired, "analysis_error": broken}
+        import re as _re
+        rules = sorted({m.group(0) for p_, (rc_, ls_) in out.items() if rc_ == 1 for l_ in ls_ for m in [_re.search(r"R-[A-Z0-9]+", l_)] if m})
+        summary[seed] = {"fired": fired, "analysis_error": broken, "rules": rules}
         if verbose:
             for p, (rc, lines) in out.items():
                 if rc != 0:
